@@ -1317,10 +1317,16 @@ static void execute(const Plan &p) {
 	}
 	// teardown
 	for (int i = 0; i < run.nend; i++) if (run.e[i].exists && !run.e[i].freed) end_free(i, "teardown");
-	for (int k = 0; k < 3; k++) event_base_loop(run.base, EVLOOP_NONBLOCK);	// freeing a member takes effect in its deferred finaliser
+	// variant: the base is freed with the finalizers of the bufferevents still queued (a filter's finalizer then releases
+	// the bufferevent below it from inside event_base_free)
+	bool any_deferred = false;	// pairs always defer their callbacks; sockets only with BEV_OPT_DEFER_CALLBACKS
+	for (int i = 0; i < run.nend; i++) if (run.e[i].exists && !run.e[i].ep && (!run.e[i].is_sock || (run.e[i].opts & BEV_OPT_DEFER_CALLBACKS))) any_deferred = true;
+	const bool noloop = p.c("teardown_noloop") && !run.grp[0].g && !run.grp[1].g && !(any_deferred && suppressed("base-free-with-deferred-callbacks-pending"));
+	if (noloop) probe("base-freed-with-bufferevent-finalizers-pending");
+	for (int k = 0; k < 3 && !noloop; k++) event_base_loop(run.base, EVLOOP_NONBLOCK);	// freeing a member takes effect in its deferred finaliser
 	for (int gi = 0; gi < 2; gi++) if (run.grp[gi].g) { bufferevent_rate_limit_group_free(run.grp[gi].g); ev_token_bucket_cfg_free(run.grp[gi].cfg); }
 	for (int i = 0; i < run.nend; i++) if (run.e[i].rl_cfg) ev_token_bucket_cfg_free(run.e[i].rl_cfg);
-	for (int k = 0; k < 3; k++) event_base_loop(run.base, EVLOOP_NONBLOCK);
+	for (int k = 0; k < 3 && !noloop; k++) event_base_loop(run.base, EVLOOP_NONBLOCK);
 	event_base_free(run.base);
 	run.base = nullptr;
 	if (!stop()) {
@@ -1330,7 +1336,7 @@ static void execute(const Plan &p) {
 	}
 	for (int i = 0; i < run.nend; i++) for (auto c : run.e[i].fctx) delete c;
 	if (!stop()) {
-		if (mon::live_blocks_run() != 0) violation("C10.leak", "%lld block(s) live after teardown: %s", (long long)mon::live_blocks_run(), mon::live_blocks_desc(6).c_str());
+		if (mon::live_blocks_run() != 0) violation(noloop && any_deferred ? "C10.leak:deferred-callbacks-dropped-by-event-base-free" : "C10.leak", "%lld block(s) live after teardown: %s", (long long)mon::live_blocks_run(), mon::live_blocks_desc(6).c_str());
 		else if (vk::open_fd_count_lib() != 0) violation("C10.fd-leak", "library fds still open: %s", vk::open_fd_list_lib().c_str());
 		else if (mon::locks_enabled && mon::held() != 0) violation("C08.lock-held-at-end", "%d lock acquisition(s) held at the end", mon::held());
 	}
@@ -1390,7 +1396,7 @@ static void generate(Plan &p, Rng &r) {
 	if (prop == "C18") { bump(OP_WATERMARK, 12); bump(OP_POLICY, 10); bump(OP_ENABLE, 7); }
 	if (prop == "C17") { bump(OP_WATERMARK, 6); bump(OP_FLUSH, 5); }
 	if (prop == "C19") { bump(OP_POLICY, 9); bump(OP_FREE, 4); bump(OP_SETCB_NULL, 3); bump(OP_PEER_SHUTDOWN, 4); bump(OP_PEER_RESET, 3); bump(OP_FLUSH, 5); bump(OP_SHUTDOWN_WR, 4); }
-	if (prop == "C10") { bump(OP_POLICY, 9); bump(OP_FREE, 6); bump(OP_SETCB_NULL, 2); bump(OP_PEER_SHUTDOWN, 3); bump(OP_PEER_RESET, 2); bump(OP_FLUSH, 4); if (r.chance(0.3)) { p.cfg["listener"] = 1; p.cfg["lev_close_on_free"] = r.coin(); ws.push_back({OP_LISTENER, 8}); ws.push_back({OP_CLIENT_BURST, 6}); } }
+	if (prop == "C10") { p.cfg["teardown_noloop"] = r.chance(0.5); bump(OP_POLICY, 9); bump(OP_FREE, 6); bump(OP_SETCB_NULL, 2); bump(OP_PEER_SHUTDOWN, 3); bump(OP_PEER_RESET, 2); bump(OP_FLUSH, 4); if (r.chance(0.3)) { p.cfg["listener"] = 1; p.cfg["lev_close_on_free"] = r.coin(); ws.push_back({OP_LISTENER, 8}); ws.push_back({OP_CLIENT_BURST, 6}); } }
 	if (prop == "C22") { ws.push_back({OP_RATELIMIT, 10}); ws.push_back({OP_GROUP, 8}); ws.push_back({OP_DECREMENT, 4}); ws.push_back({OP_MAXSINGLE, 4}); bump(OP_ADVANCE, 8); bump(OP_WRITE, 24); bump(OP_LOOP, 20); }
 	if (prop == "C44") { ws.push_back({OP_LISTENER, 14}); ws.push_back({OP_CLIENT_BURST, 12}); bump(OP_WRITE, 4); bump(OP_PEER_SEND, 2); }
 	if (prop == "C20") { bump(OP_TIMEOUTS, 10); bump(OP_ADVANCE, 8); bump(OP_WATERMARK, 5); bump(OP_PEER_PAUSE, 5); }
